@@ -589,23 +589,23 @@ def check_propagate_labels(rep: Rep, w: Walker) -> None:
     stores = [e for e in w.events if e.kind == "store" and e.target[0] == "attr" and e.target[2] == "predicted_label"]
     rep.fn("PROP-sites", w.entry, "propagate_labels assigns predicted_label", len(stores) >= 1, "no assignment found")
     kinds = Kinds(w)
+    from .schema import node_loop
     for e in stores:
-        n = node_of(e.target[1])
         ok = False
         detail = "predicted_label(i) must be label(root(i))"
-        if n and e.value[0] == "attr" and e.value[2] == "label":
-            src = node_of(e.value[1])
-            i = n[1]
-            if src and src[0] == n[0]:
-                r = src[1]
-                rooti = ("attr", ("idx", ("attr", n[0], "nodes"), i), "root")
-                if r == rooti or (r[0] == "old" and r[1] == rooti):
-                    ok = True
-                elif r == i:
-                    eq = ("cmp", "==", *sorted([i, rooti], key=repr))
-                    ok = has_guard(e.guards, eq)
-                    detail = "label(i) is used without the guard root(i) == i"
-            full = kinds.kind(i) == ("NodeIdx", n[0]) and i[0] in ("iter", "iterproj")
-            if not full:
-                ok, detail = False, "the loop does not visit every node"
+        nl = node_loop(w.loops[e.loops[-1]]) if e.loops else None
+        if nl is None:
+            rep.ev("PROP-root-label", e, False, "the assignment is not inside a loop over all nodes")
+            continue
+        G, ix, N = nl
+        if e.target == ("attr", N, "predicted_label") and e.value[0] == "attr" and e.value[2] == "label":
+            src = e.value[1]
+            rootN = ("attr", N, "root")
+            if src in (("idx", ("attr", G, "nodes"), rootN), ("idx", ("attr", G, "nodes"), ("old", rootN))):
+                ok = True
+            elif src[0] == "idx" and src[1] == ("attr", G, "nodes") and src[2][0] == "old" and src[2][1] == rootN:
+                ok = True
+            elif src == N and ix is not None:
+                ok = has_guard(e.guards, ("cmp", "==", *sorted([ix, rootN], key=repr)))
+                detail = "label(i) is used without the guard root(i) == i"
         rep.ev("PROP-root-label", e, ok, detail)
